@@ -81,6 +81,13 @@ def install(E, probes=ASCII_PROBES):
 
     def encode(ctx, s, args, kw):
         codec = args[0] if args else kw.get("encoding")
+        err = args[1] if len(args) > 1 else kw.get("errors")
+        if err is not None:
+            ev = z3.simplify(err.z) if hasattr(err, "z") else None
+            if ev is None or not z3.is_string_value(ev) or ev.as_string() != "strict":
+                raise Unsupported("codec call with an errors= policy other than 'strict'")
+        if len(args) > 2 or any(k not in ("encoding", "errors") for k in kw):
+            raise Unsupported("codec call shape not modelled")
         if codec is not None:
             c = z3.simplify(codec.z)
             if not (z3.is_string_value(c) and c.as_string().lower().replace("_", "-") in ("utf-8", "utf8")):
@@ -97,6 +104,13 @@ def install(E, probes=ASCII_PROBES):
 
     def decode(ctx, b, args, kw):
         codec = args[0] if args else kw.get("encoding")
+        err = args[1] if len(args) > 1 else kw.get("errors")
+        if err is not None:
+            ev = z3.simplify(err.z) if hasattr(err, "z") else None
+            if ev is None or not z3.is_string_value(ev) or ev.as_string() != "strict":
+                raise Unsupported("codec call with an errors= policy other than 'strict'")
+        if len(args) > 2 or any(k not in ("encoding", "errors") for k in kw):
+            raise Unsupported("codec call shape not modelled")
         is_utf8 = True
         if codec is not None:
             c = z3.simplify(codec.z)
